@@ -705,7 +705,7 @@ partial def barrier (t : Nat) : M Unit := do
         modify fun g => { g with workOf := (wn, (b, h)) :: g.workOf }
         let g ← P.get
         let wid ← num (wn.drop 4).toString
-        lab (.bEnq (mt g t) (WORK0 + wid))
+        lab (.bEnq (mt g t) (WORK0 + wid) h)
         callRcuInner t h wn
         cover "barrier_marker_enqueued"
         enqAll
@@ -751,10 +751,10 @@ def barrierComplete (t h : Nat) (wn : String) : M Unit := do
   let cn := complName g b
   let r ← rmwM t "SUBR" s!"{cn}.count" 1
   -- the callback is now running: the model must have exactly this marker at the head of the batch
-  labB (.hRunBegin h)
   let wid ← num (wn.drop 4).toString
-  check fun g => if g.s.base.cur h != some (WORK0 + wid) || g.s.base.mark (WORK0 + wid) != some (b, h') then
-    some s!"invokes marker {wn} of barrier {b} queued on {crdName h'}, model runs {repr (g.s.base.cur h)}" else none
+  check fun g => if (g.s.base.batch h).head? != some (WORK0 + wid) || g.s.base.mark (WORK0 + wid) != some (b, h') then
+    some s!"invokes marker {wn} of barrier {b} queued on {crdName h'}, but the model's batch is {repr (g.s.base.batch h)}" else none
+  labB (.hRunBegin h (WORK0 + wid))
   lab (.mSub h)
   check fun g => if g.s.cnt b != r then some s!"{cn}.count = {r}, model {g.s.cnt b}" else none
   if r == 0 then do
@@ -1006,8 +1006,8 @@ partial def helperThread (fl : Flav) (t h : Nat) : M Unit := do
       if e.op != "INVOKE" then P.fail s!"expected the invocation of {node}"
       if s!"&cb{e.arg 0}" != node then P.fail s!"callback of node {node} reports rcu_head cb{e.arg 0}"
       let id ← num (e.arg 0)
-      labB (.hRunBegin h)
-      check fun g => if g.s.base.cur h != some id then some s!"invokes cb{id}, model runs {repr (g.s.base.cur h)}" else none
+      check fun g => if (g.s.base.batch h).head? != some id then some s!"invokes cb{id}, but the model's batch is {repr (g.s.base.batch h)}" else none
+      labB (.hRunBegin h id)
       let _ ← opsUntil fl t (fun e => e.op == "INVOKED" && e.args == [toString id])
       labB (.hRunEnd h)
       cover "callback_invoked"
